@@ -43,7 +43,8 @@ static void check_table(const table_t* t, const char* path, int64_t ci, const ch
         snprintf(ctx, sizeof ctx, "%s mode=%s rg=%d col=%d type=%d rep=%d rows=%lld page=%lld codec=%d", tag, IO_NAME[mode], g, c, col->type, col->rep, (long long)k->nlevels, (long long)t->page_size, t->codec);
         if (k->nlevels >= 1 && k->nlevels <= 12 && EXH_BUDGET > 0) { EXH_BUDGET--; exhaustive_histories(o.rd, map[g], c, col, k, ctx); }
         if (k->nlevels >= 1) random_histories(o.rd, map[g], c, col, k, ctx, RAND_HIST); } }
-    /* batch reader: batch sizes x projections */
+    /* batch reader: batch sizes x projections (columns with repetition have more level entries than rows: the batch reader's row alignment is defined for flat data only) */
+    for (int c = 0; c < t->ncols; c++) if (t->cols[c].max_rep > 0) { v_count("files_with_repeated_columns"); free(map); rd_close(&o); return; }
     int64_t maxrows = 0; for (int g = 0; g < t->nrg; g++) if (t->rg_rows[g] > maxrows) maxrows = t->rg_rows[g];
     int bss[] = {1, 2, 3, 7, 8, 9, 63, 64, 65, (int)(maxrows > 0 ? maxrows : 1), (int)maxrows + 1, 65536}; int nbs = (int)(sizeof bss / sizeof *bss);
     int64_t total = 0; for (int g = 0; g < t->nrg; g++) total += t->rg_rows[g];
